@@ -5,7 +5,7 @@ import re
 from . import terms as T
 from .terms import Term
 from .mirsym import (L, Ptr, SliceRef, FnRef, Closure, Guarded, NumPiece, Float, UNIT, DEAD, Unsupported,
-                     ConcretePanic, strip_generics)
+                     ConcretePanic, strip_generics, OpaqueSlice)
 from .mirparse import parse_type
 
 M64 = (1 << 64) - 1
@@ -160,6 +160,49 @@ class Library:
                 return False, None
             r = I.call_closure(None, it[1], [I.mk([v])] if False else [v])
             return True, r
+        if tag == 'Zip':
+            ok, a = self.it_next(it[0])
+            if not ok:
+                return False, None
+            ok, b = self.it_next(it[1])
+            if not ok:
+                return False, None
+            return True, I.mk([a, b])
+        if tag == 'Take':
+            n = it[1]
+            if n == 0:
+                return False, None
+            I.write(it, 1, n - 1)
+            return self.it_next(it[0])
+        if tag == 'Copied':
+            ok, v = self.it_next(it[0])
+            if not ok:
+                return False, None
+            v = self.deref(v)
+            return True, (I.copy_val(v) if type(v) is L else v)
+        if tag == 'Chunks':
+            sl, pos, n = it
+            if pos >= sl.len:
+                return False, None
+            k = min(n, sl.len - pos)
+            I.write(it, 1, pos + k)
+            return True, SliceRef(sl.c, sl.start + pos, k, sl.is_str)
+        if tag == 'Windows':
+            sl, pos, n = it
+            if pos + n > sl.len:
+                return False, None
+            I.write(it, 1, pos + 1)
+            return True, SliceRef(sl.c, sl.start + pos, n, sl.is_str)
+        if tag == 'Filter':
+            while True:
+                ok, v = self.it_next(it[0])
+                if not ok:
+                    return False, None
+                keep = I.call_closure(None, it[1], [Ptr(I.mk([v]), 0)])
+                if type(keep) is not int:
+                    raise Unsupported('filter with a symbolic predicate outside count()')
+                if keep:
+                    return True, v
         if tag == 'BiRange':
             raise Unsupported('BiRange is a crate type')
         raise Unsupported('iterator next on %s' % tag)
@@ -322,7 +365,8 @@ class Library:
         def _into_iter(fr, name, args, ops):
             v = args[0]
             if type(v) is L and v.tag in ('Range', 'RangeIncl', 'StepBy', 'Rev', 'Chain', 'Enumerate', 'Skip',
-                                          'SliceIter', 'ArrIter', 'ChunksExact', 'Map', 'Filter'):
+                                          'SliceIter', 'ArrIter', 'ChunksExact', 'Map', 'Filter', 'Zip', 'Take', 'Copied',
+                                          'Chunks', 'Windows'):
                 return v
             if type(v) is L and v.tag == 'enum' and False:
                 pass
@@ -499,6 +543,8 @@ class Library:
 
         @reg(r'^core::slice::<impl \[.*\]>::len$', 'slice::len')
         def _sl_len(fr, name, args, ops):
+            if type(args[0]) is OpaqueSlice:
+                return args[0].length
             return self.as_slice(args[0]).len
 
         @reg(r'^core::slice::<impl \[.*\]>::copy_from_slice$', 'slice::copy_from_slice')
@@ -836,8 +882,10 @@ class Library:
             from . import fpterms
             return fpterms.round_(args[0])
 
-        from . import libstr
+        from . import libstr, libmore
         libstr.register(self)
+        libmore.register(self)
+        libmore.register_cells(self)
 
     def apply_ctor_or_fn(self, fr, f, args):
         I = self.I
